@@ -28,6 +28,20 @@ pub enum Seg {
   Dir { conv: char, pad: Option<String>, opt: Option<String> },
 }
 
+/// A padded directive whose width is placed relative to the size of the content it renders
+/// (class "padded directives x multi-byte content of every width relation"): the width is
+/// derived from the character count and the UTF-8 length of that content.
+#[derive(Clone, Debug, Serialize, Deserialize, PartialEq)]
+pub struct Fit {
+  /// 0 = %m, 1 = %t, 2 = %T, 3 = %X{first usable field key} (falls back to %m)
+  pub conv: u8,
+  /// 0: chars-1 · 1: chars · 2: chars+1 · 3: midway between chars and bytes · 4: bytes-1 ·
+  /// 5: bytes · 6: bytes+1 · 7: bytes+7
+  pub rel: u8,
+  /// left-aligned (negative width)
+  pub left: bool,
+}
+
 #[derive(Clone, Debug, Serialize, Deserialize)]
 pub struct PatternCase {
   /// grammar-generated pattern
@@ -35,6 +49,9 @@ pub struct PatternCase {
   /// if set, used instead of `segs`: an arbitrary string (totality)
   pub raw: Option<String>,
   pub event: EventSpec,
+  /// appended to `segs` (ignored with `raw`)
+  #[serde(default)]
+  pub fit: Option<Fit>,
 }
 
 fn pad() -> impl Strategy<Value = String> {
@@ -75,7 +92,69 @@ pub fn strategy() -> impl Strategy<Value = PatternCase> {
     // arbitrary strings, biased toward the pattern meta-characters
     prop::collection::vec(prop_oneof![3 => Just('%'), 2 => prop::sample::select(vec!['m', 'd', 'p', 'n', 'X', 't', 'T', 'l', '{', '}', '-', '0', '9', '5']), 3 => any_char()], 0..16).prop_map(|v| v.into_iter().collect::<String>()),
   ];
-  (prop::collection::vec(seg(), 0..8), prop::option::weighted(0.15, raw), event_spec()).prop_map(|(segs, raw, event)| PatternCase { segs, raw, event })
+  // multi-byte content: one of the strings a directive renders becomes 1-12 repetitions of a
+  // 2-, 3- or 4-byte character (optionally after an ASCII head)
+  let multibyte = (prop::sample::select(vec!['é', 'ß', '\u{85}', '\u{a0}', '日', '\u{2028}', '\u{fffd}', '\u{1f600}', '\u{10000}', '\u{10ffff}']), 1u16..=12, "[a-z]{0,3}", 0u8..4);
+  let fit = (0u8..4, 0u8..8, any::<bool>()).prop_map(|(conv, rel, left)| Fit { conv, rel, left });
+  (prop::collection::vec(seg(), 0..8), prop::option::weighted(0.15, raw), event_spec(), prop::option::weighted(0.35, multibyte), prop::option::weighted(0.4, fit)).prop_map(|(segs, raw, mut event, mb, fit)| {
+    if let Some((ch, n, head, which)) = mb {
+      let text = SText::lit(&format!("{head}{}", ch.to_string().repeat(n as usize)));
+      match which {
+        0 => event.message = Some(text),
+        1 => event.target = text,
+        2 => event.thread_name = Some(text),
+        _ => event.fields.push((SText::lit("fk"), crate::c20_json::Val::Str(text))),
+      }
+    }
+    PatternCase { segs, raw, event, fit }
+  })
+}
+
+/// The text the fitted directive renders, and the directive's converter + option block.
+fn fit_content(f: &Fit, e: &EventSpec) -> (char, Option<String>, String) {
+  match f.conv % 4 {
+    1 => ('t', None, e.target.get()),
+    2 => ('T', None, e.thread_name.as_ref().map(|t| t.get()).unwrap_or_default()),
+    3 => {
+      // the event model is a map: the last entry of a key is the one that counts
+      let usable = |k: &str| !k.is_empty() && k.chars().all(|c| c.is_ascii_lowercase() || c == '_');
+      if let Some((k, _)) = e.fields.iter().rev().find(|(k, _)| usable(&k.get())) {
+        let key = k.get();
+        let v = e.fields.iter().rev().find(|(k2, _)| k2.get() == key).map(|(_, v)| crate::c20_json::log_value(v).to_string()).unwrap_or_default();
+        ('X', Some(key), v)
+      } else {
+        ('m', None, e.message.as_ref().map(|m| m.get()).unwrap_or_default())
+      }
+    }
+    _ => ('m', None, e.message.as_ref().map(|m| m.get()).unwrap_or_default()),
+  }
+}
+
+fn fit_width(f: &Fit, content: &str) -> usize {
+  let (chars, bytes) = (content.chars().count(), content.len());
+  match f.rel % 8 {
+    0 => chars.saturating_sub(1),
+    1 => chars,
+    2 => chars + 1,
+    3 => (chars + bytes) / 2,
+    4 => bytes.saturating_sub(1),
+    5 => bytes,
+    6 => bytes + 1,
+    _ => bytes + 7,
+  }
+  // very long strings: stay inside the widths the grammar uses anyway
+  .min(100_000)
+}
+
+/// `segs` plus the fitted directive.
+pub fn effective_segs(c: &PatternCase) -> Vec<Seg> {
+  let mut v = c.segs.clone();
+  if let Some(f) = &c.fit {
+    let (conv, opt, content) = fit_content(f, &c.event);
+    let w = fit_width(f, &content);
+    v.push(Seg::Dir { conv, pad: Some(format!("{}{w}", if f.left { "-" } else { "" })), opt });
+  }
+  v
 }
 
 pub fn pattern_string(c: &PatternCase) -> String {
@@ -83,7 +162,7 @@ pub fn pattern_string(c: &PatternCase) -> String {
     return r.clone();
   }
   let mut s = String::new();
-  for g in &c.segs {
+  for g in &effective_segs(c) {
     match g {
       Seg::Lit(t) => s.push_str(t),
       Seg::Percent => s.push_str("%%"),
@@ -157,7 +236,7 @@ pub fn execute(c: &PatternCase) -> Result<CaseReport, Failure> {
   // "the pattern encoder renders every event without panicking"
   let pad_class = if c.raw.is_none() {
     let mut k = "nopad";
-    for g in &c.segs {
+    for g in &effective_segs(c) {
       if let Seg::Dir { pad: Some(p), .. } = g {
         let n = p.parse::<i64>().unwrap_or(0).unsigned_abs();
         k = if n > 65535 { "pad_gt_u16" } else if k == "nopad" { "pad" } else { k };
@@ -198,7 +277,7 @@ pub fn execute(c: &PatternCase) -> Result<CaseReport, Failure> {
       let k = out_s.matches(sentinel).count();
       if k > 0 {
         rep.class("pattern/renders_message");
-        let padded_m = c.raw.is_some() || c.segs.iter().any(|g| matches!(g, Seg::Dir { conv: 'm', pad: Some(_), .. }));
+        let padded_m = c.raw.is_some() || effective_segs(c).iter().any(|g| matches!(g, Seg::Dir { conv: 'm', pad: Some(_), .. }));
         if !out.contains(msg.as_str()) {
           return Err(Failure::new(P, format!("pattern/{pad_class}/message_not_verbatim"), format!("pattern {:?}: output {:?} does not contain the message {:?}", clip(&pattern, 60), clip(&out, 120), clip(msg, 80))));
         }
@@ -221,5 +300,24 @@ pub fn execute(c: &PatternCase) -> Result<CaseReport, Failure> {
     }
   }
   rep.class(format!("pattern/{pad_class}"));
+  // padded directives x content width relation (fitted directive: the content is known)
+  if let (None, Some(f)) = (&c.raw, &c.fit) {
+    let (conv, _, content) = fit_content(f, &c.event);
+    let (w, chars, bytes) = (fit_width(f, &content), content.chars().count(), content.len());
+    let rel = if w <= chars {
+      "width<=chars"
+    } else if w < bytes {
+      "chars<width<bytes"
+    } else if w == bytes {
+      "chars<width==bytes"
+    } else {
+      "width>bytes"
+    };
+    let kind = if bytes > chars { "multibyte" } else { "ascii" };
+    rep.class(format!("pattern/fit/{kind}/{rel}"));
+    if bytes > chars && w > chars && w < bytes {
+      rep.class(format!("pattern/fit/multibyte/chars<width<bytes/%{conv}"));
+    }
+  }
   Ok(rep)
 }
